@@ -272,3 +272,10 @@ func verifPFixedNum(name string, n int) verifPVal {
 	}
 	return verifPVal{kind: vkInt, v: json.Number(ds), i: val, text: ds}
 }
+
+// verifPRun: UnmarshalKey under recover()
+func verifPRun(m map[string]any, v any) (err error, panicked bool) {
+	_, panicked = verifExpectPanic(func() { err = UnmarshalKey(m, v) })
+	return
+}
+
